@@ -485,6 +485,117 @@ FOOTER_PARSE = """Definition src_parse_int_list (range_string delim range_delim 
 """
 
 
+# ---------------------------------------------------------------------------------- complement_int_list
+def normalise_compl(node):
+    """int_list = set(parse_int_list(range_string, delim, range_delim))  is performed by the wrapper (it may
+    raise); the rest is translated as a function of the parsed integers.  `range_end is None` becomes a test on
+    the optional parameter, with the else branch that Python leaves implicit (range_end keeps its value)."""
+    body = node.body
+    if body and isinstance(body[0], ast.Expr) and isinstance(body[0].value, ast.Constant):
+        doc, body = [body[0]], body[1:]
+    else:
+        doc = []
+    first = body[0]
+    ok = (isinstance(first, ast.Assign) and len(first.targets) == 1 and _is_name(first.targets[0], "int_list")
+          and isinstance(first.value, ast.Call) and _is_name(first.value.func, "set") and len(first.value.args) == 1
+          and isinstance(first.value.args[0], ast.Call) and _is_name(first.value.args[0].func, "parse_int_list")
+          and [a.id if isinstance(a, ast.Name) else None for a in first.value.args[0].args] == ["range_string", "delim", "range_delim"]
+          and not first.value.args[0].keywords)
+    if not ok:
+        raise U("first statement of complement_int_list")
+    if any(isinstance(n, (ast.For, ast.While, ast.Try, ast.With, ast.Raise, ast.Yield, ast.Break, ast.Continue))
+           for n in ast.walk(node)):
+        raise U("unexpected control flow in complement_int_list")
+    rest = body[1:]
+    if not (isinstance(rest[0], ast.If) and isinstance(rest[0].test, ast.Compare) and len(rest[0].test.ops) == 1
+            and isinstance(rest[0].test.ops[0], ast.Is) and _is_name(rest[0].test.left, "range_end")
+            and isinstance(rest[0].test.comparators[0], ast.Constant) and rest[0].test.comparators[0].value is None
+            and not rest[0].orelse):
+        raise U("expected  if range_end is None:  without else")
+    for n in ast.walk(ast.Module(body=rest[1:], type_ignores=[])):
+        if isinstance(n, ast.Compare) and any(isinstance(o, (ast.Is, ast.IsNot)) for o in n.ops):
+            raise U("another identity test")
+        if isinstance(n, (ast.Assign, ast.AugAssign)) and any(_is_name(t, "range_end") for t in getattr(n, "targets", [getattr(n, "target", None)])):
+            raise U("range_end assigned after the defaulting")
+    rest[0] = ast.If(test=ast.Call(func=ast.Name(id="__is_none", ctx=ast.Load()),
+                                   args=[ast.Name(id="range_end_opt", ctx=ast.Load())], keywords=[]),
+                     body=rest[0].body,
+                     orelse=[ast.Assign(targets=[ast.Name(id="range_end", ctx=ast.Store())],
+                                        value=ast.Call(func=ast.Name(id="__get", ctx=ast.Load()),
+                                                       args=[ast.Name(id="range_end_opt", ctx=ast.Load())], keywords=[]))])
+    node.body = doc + rest
+    for a in node.args.args:
+        if a.arg == "range_string":
+            a.arg = "int_list"
+        elif a.arg == "range_end":
+            a.arg = "range_end_opt"
+    ast.fix_missing_locations(node)
+    return node
+
+
+def shape_set_difference(T, s, probe, scope=None):
+    """v = set(range(a)) - xs - set(range(b))"""
+    if not (isinstance(s, ast.Assign) and len(s.targets) == 1 and _is_name(s.targets[0], "complement_values")):
+        return None
+    v = s.value
+
+    def set_range(e):
+        if (isinstance(e, ast.Call) and _is_name(e.func, "set") and len(e.args) == 1 and isinstance(e.args[0], ast.Call)
+                and _is_name(e.args[0].func, "range") and len(e.args[0].args) == 1 and not e.args[0].keywords):
+            return e.args[0].args[0]
+        return None
+    ok = (isinstance(v, ast.BinOp) and isinstance(v.op, ast.Sub) and isinstance(v.left, ast.BinOp)
+          and isinstance(v.left.op, ast.Sub) and set_range(v.left.left) is not None and _is_name(v.left.right, "int_list")
+          and set_range(v.right) is not None)
+    if not ok:
+        raise U("complement_values of an unknown shape")
+    if probe:
+        return ["complement_values"]
+    if "complement_values" not in scope:
+        raise U("complement_values must be pre-bound")
+    return ("let complement_values := filter (fun v => negb (memZ v int_list) && negb (memZ v (zrange 0%%Z %s))) "
+            "(zrange 0%%Z %s) in\n" % (T.expr(set_range(v.right), scope), T.expr(set_range(v.left.left), scope)))
+
+
+def _call_format(T, e, scope):
+    if len(e.args) != 3 or e.keywords or not all(isinstance(a, ast.Name) for a in e.args):
+        raise U("call of format_int_list")
+    xs, d, rd = [T.expr(a, scope) for a in e.args]
+    if [T.kind(a) for a in e.args] != ["listZ", "text", "text"]:
+        raise U("kinds in the call of format_int_list")
+    return "(format_int_list %s %s %s false)" % (d, rd, xs)
+
+
+CFG_COMPL = {
+    "name": "src_complement_tail",
+    "params": [("int_list", "list Z"), ("range_start", "Z"), ("range_end_opt", "option Z"), ("delim", "text"),
+               ("range_delim", "text")],
+    "defaults": {"range_start": "0", "range_end_opt": "None", "delim": "','", "range_delim": "'-'"},
+    "ret": "text", "num": "Z",
+    "kinds": {"int_list": "listZ", "range_start": "int", "range_end": "int", "range_end_opt": "opt", "delim": "text",
+              "range_delim": "text", "complement_values": "listZ"},
+    "calls": {"__is_none": ("src_is_none", "bool"), "__get": ("src_get", "int"), "max": ("list_maxZ", "int"),
+              "format_int_list": (_call_format, "text")},
+    "truthy": {"listZ": "src_nonempty"},
+    "prebind": {"range_end": "0%Z", "complement_values": "([] : list Z)"},
+    "shapes": [shape_set_difference],
+}
+
+HEADER_COMPL = """
+(* ---- complement_int_list: after  int_list = set(parse_int_list(...))  (performed by the wrapper) ---- *)
+Definition src_is_none (o : option Z) : bool := match o with None => true | Some _ => false end.
+Definition src_get (o : option Z) : Z := match o with Some v => v | None => 0 end.
+"""
+
+FOOTER_COMPL = """Definition src_complement_int_list (range_string : text) (range_start : Z) (range_end : option Z)
+           (delim range_delim : text) : res text :=
+  match src_parse_int_list range_string delim range_delim with
+  | Raise e => Raise e
+  | Ok ints => Ok (src_complement_tail ints range_start range_end delim range_delim)
+  end.
+"""
+
+
 CFG = {
     "name": "src_format_int_list",
     "params": [("int_list", "list Z"), ("delim", "text"), ("range_delim", "text"), ("delim_space", "bool")],
@@ -522,7 +633,9 @@ def generate(repo):
             + HEADER_CMD + py2coq.Translator(dict(CFG_CMD)).function(cmd) + FOOTER_CMD
             + HEADER_SH % repr(sep) + py2coq.Translator(dict(CFG_SH)).function(sh) + FOOTER_SH % _codes(sep)
             + HEADER_PARSE + py2coq.Translator(dict(CFG_PARSE)).function(
-                normalise_parse(py2coq.get_function(path, "parse_int_list"))) + FOOTER_PARSE}
+                normalise_parse(py2coq.get_function(path, "parse_int_list"))) + FOOTER_PARSE
+            + HEADER_COMPL + py2coq.Translator(dict(CFG_COMPL)).function(
+                normalise_compl(py2coq.get_function(path, "complement_int_list"))) + FOOTER_COMPL}
 
 
 if __name__ == "__main__":
